@@ -43,6 +43,19 @@ def endpoint(T, ep):
     if ep == 'iso': return T.isoformat()
     return T
 
+def endpoints(t0, t1, case):
+    """the two endpoint arguments as the case spells them; 'off' gives one endpoint as an offset from the other
+    (date_range resolves an end given as a bump relative to the start, and a start given as a bump relative to the end)"""
+    e0 = endpoint(t0, case.get('ep0')); e1 = endpoint(t1, case.get('ep1'))
+    off = case.get('off')
+    if off:
+        which, how = off
+        delta = (t1 - t0) if which == 't1' else (t0 - t1)
+        v = delta.days if how == 'int' else delta if how == 'td' else '%dd' % delta.days
+        if which == 't1': e1 = v
+        else: e0 = v
+    return e0, e1
+
 def step_fn(b):
     """the single-step function of the property text"""
     if 'int' in b: return lambda t: t + datetime.timedelta(days=b['int'])
@@ -95,7 +108,23 @@ def impl(case):
     f = calendar().drange if case.get('via') == 'calendar' else drange
     if case.get('dirty_cal'):      # the program reconfigured the DEFAULT calendar earlier: drange must still list plain weekdays
         calendar(holidays=[us2dt(h) for h in case['dirty_cal']], weekend=[4, 5])
-    st, r = call(f, endpoint(t0, case.get('ep0')), endpoint(t1, case.get('ep1')), B)
+    e0, e1 = endpoints(t0, t1, case)
+    st, r = call(f, e0, e1, B)
+    again = None
+    if st == 'ok' and isinstance(r, list):
+        # state a call leaves behind must not change the next one: the caller edits the list it was handed, asks for the
+        # range in the opposite direction, then asks again for the same range
+        snap = list(r)
+        r.reverse(); r.append(None)
+        if len(snap) >= 2 and b is not None and ('int' in b or 'td_us' in b):
+            nb = -b['int'] if 'int' in b else datetime.timedelta(microseconds=-b['td_us'])
+            sb, rb = call(f, snap[-1], snap[0], nb)
+            if sb != 'ok' or rb != snap[::-1]:
+                again = 'drange(%s, %s, %r) = %s..., not the reverse of drange(%s, %s, %r)' % (snap[-1], snap[0], nb, (rb[:3] if sb == 'ok' else sb), t0, t1, B)
+        s2, r2 = call(f, e0, e1, B)
+        if again is None and (s2 != 'ok' or r2 != snap):
+            again = 'drange(%s, %s, %r) called a second time in the same process returned %s..., the first call returned %s...' % (t0, t1, B, (r2[:3] if s2 == 'ok' else s2), snap[:3])
+        r = snap
     if case.get('dirty_cal'):
         calendar(holidays=[], weekend=[5, 6])      # restore the default for the following cases
     obs = [dt2us(x) for x in r] if st == 'ok' else ['ERR', st]
@@ -109,6 +138,8 @@ def impl(case):
     elif exp[0] == 'raise':
         if st != 'ValueError':
             viol = 'bump %r points away from t1 but drange(%s, %s) returned %s' % (bump_py(b), t0, t1, ('%d dates' % len(r)) if st == 'ok' else st)
+    if viol is None and again is not None:
+        viol = again
     if viol is None and st == 'ok' and b is not None and 'int' in b:
         # int n == timedelta(n) == 'nd'
         n = b['int']
@@ -134,7 +165,7 @@ def nontrivial(case, result):
 def shape(case):
     b = case['bump']
     d = 'fwd' if case['t0'] < case['t1'] else 'bwd' if case['t0'] > case['t1'] else 'eq'
-    d += ('/dirtycal' if case.get('dirty_cal') else '') + ('/ep' if case.get('ep0') else '') + ('/cal' if case.get('via') else '') + ('/upper' if case.get('upper') else '')
+    d += ('/dirtycal' if case.get('dirty_cal') else '') + ('/ep' if case.get('ep0') else '') + ('/off' if case.get('off') else '') + ('/cal' if case.get('via') else '') + ('/upper' if case.get('upper') else '')
     if b is None: return 'none/' + d
     if 'str' not in b: return list(b)[0] + '/' + d
     toks = tokens(b['str'])
@@ -241,6 +272,9 @@ def gen_cases(rng, tier):
             c['via'] = 'calendar'
         elif r < 0.4 and b is not None and 'str' in b:
             c['upper'] = 1
+        elif 0.6 <= r < 0.75 and (c['t1'] - c['t0']) % DAYUS == 0 and abs(c['t1'] - c['t0']) // DAYUS < 1500:
+            # one endpoint given as an offset from the other (int days, timedelta, 'kd'), in both directions and with both bump signs
+            c['off'] = [rng.choice(['t1', 't1', 't0']), rng.choice(['int', 'td', 'str'])]
         elif r < 0.6 and isb and c.get('via') != 'calendar':
             lo, hi = min(c['t0'], c['t1']), max(c['t0'], c['t1'])
             c['dirty_cal'] = [lo - lo % DAYUS + k * DAYUS for k in range(0, min(10, (hi - lo) // DAYUS + 1), 2)]
